@@ -39,10 +39,12 @@ correspondence runs), the whole open of the documented layout — `recoverImage`
 journal, scan, retirement, tail — succeeds without writing a byte and shows one entry per index entry,
 newest-wins over exactly the records of the index. -/
 theorem clean_file_reads_back_as_its_index {img : Image} {size : Nat} {lives : List Live} {o : Opts}
-    (hro : o.readOnly = false) (httl : o.ttlOn = false) (h : openCleanB img size lives = true) :
+    (hro : o.readOnly = false)
+    (hexp : o.ttlOn = true → ∀ l ∈ lives, (decide (l.expiry > 0) && decide (o.now > l.expiry)) = false)
+    (h : openCleanB img size lives = true) :
     ∃ (r : Recovered) (L : List Feox.Proto.Rec), (recoverImage img size o).result = .ok r ∧ (recoverImage img size o).io = [] ∧
       r.image = img ∧ L.length = lives.length ∧
       r.live = L.foldl (fun lv r => absorbLive lv (liveOf (infoOf lives) r)) [] :=
-  openCleanB_sound hro httl h
+  openCleanB_sound hro hexp h
 
 end Feox.C10
